@@ -35,7 +35,9 @@ from . import vloop
 IP = "127.0.0.1"
 TCP_PEERS = [(IP, 50001), (IP, 50002)]      # SOCKS TCP control connections (only the IP is ever compared)
 VIEWERS = [(IP, 1001), (IP, 1002)]          # viewers' UDP source addresses
-SIMS = [(IP, 13000), (IP, 13001)]           # main region, neighbour region (shared by both sessions on purpose)
+SIMS = [(IP, 13000), (IP, 13001),           # main region, neighbour region (shared by both sessions on purpose)
+        (IP, 13002)]                         # not registered at start: where a known region handle is re-announced later
+HOOK_LOG: List[Any] = []                    # written by addon *files* of the C07 hot-reload family
 UNREGISTERED_SIM = (IP, 13009)              # same IP, never registered as a region
 FOREIGN_HOST = ("10.9.8.7", 13000)          # a host on another IP with a simulator's port
 CIRCUIT_CODE = 1234
